@@ -42,7 +42,10 @@ func (pass *UndiscriminatedDisjunctionToAny) processDisjunction(visitor *Visitor
 
 	if disjunction.Branches.HasOnlyRefs() {
 		if len(disjunction.Discriminator) == 0 || len(disjunction.DiscriminatorMapping) == 0 {
-			return ast.Any(ast.Trail("UndiscriminatedDisjunctionToAny")), nil
+			anyType := ast.Any(ast.Trail("UndiscriminatedDisjunctionToAny"))
+			anyType.Nullable = def.Nullable
+
+			return anyType, nil
 		}
 	}
 
